@@ -168,6 +168,24 @@ func c19Loader(w *core.Worker, i int) {
 		default:
 			data = c19MutateBytes(r, c19WellFormed(r, format))
 		}
+		nested := (format == "JSON" || format == "JSONL") && r.P(35)
+		if nested {
+			// structured documents: nested arrays (also empty ones), objects, scalars where an array is expected — read through
+			// queries that walk into them
+			var docs []string
+			for n := r.Range(1, 5); n > 0; n-- {
+				items := []string{`[{"a":1,"b":"x"},{"a":2}]`, `[]`, `[{"a":3}]`, `null`, `{}`, `"text"`, `[1,2]`, `[[]]`, `[{}]`, `[null]`}[r.Intn(10)]
+				docs = append(docs, fmt.Sprintf(`{"id":%d,"items":%s,"o":{"items":%s}}`, n, items, []string{"[]", `[{"a":9}]`, "null"}[r.Intn(3)]))
+			}
+			if format == "JSON" {
+				data = []byte([]string{"[" + strings.Join(docs, ",") + "]", docs[0], "[]", "{}", `{"items":[]}`}[r.Intn(5)])
+			} else {
+				data = []byte(strings.Join(docs, "\n") + "\n")
+			}
+			if r.P(20) {
+				data = c19MutateBytes(r, data)
+			}
+		}
 		fname := fmt.Sprintf("f%d.dat", k%7)
 		enc := c19Encodings[r.Intn(len(c19Encodings))]
 		nh, wn := []string{"FALSE", "TRUE"}[r.Intn(2)], []string{"FALSE", "TRUE"}[r.Intn(2)]
@@ -185,6 +203,10 @@ func c19Loader(w *core.Worker, i int) {
 			from = fmt.Sprintf("LTSV(`%s`, %s, %s)", fname, enc, wn)
 		case "JSON", "JSONL":
 			q := []string{"", "{}", "[]", "{c1}", "[0]", "a.b", "{c1, c2 as x}", "[", "{id, id}"}[r.Intn(9)]
+			if nested {
+				q = []string{"items[]", "items[0]", "items{}", "items{a}", "items[].a", "items", "id", "items[5]", "o.items[]", "o.items", "[].items[]", "[0].items[]", "[]", "{}", "items[][]", "items{a, b as c}"}[r.Intn(16)]
+				w.Count("loads_of_nested_documents", 1)
+			}
 			from = fmt.Sprintf("%s('%s', `%s`)", format, q, fname)
 		}
 		uneven := r.Bool()
